@@ -233,6 +233,17 @@ def run_impl(fn):
         return 'err', [isinstance(e, __import__('mitxgraders').exceptions.MITxError), type(e).__name__, str(e)]
 
 
+def inexact(values):
+    """the 'float evaluation is exact on dyadic values' premise of the value comparison: false once a value (hence possibly a product of two) needs
+    more significant bits than a double has. Deep chains of dependent formulas (x^2 of x^2 ...) reach that in the thorough tier."""
+    def sig(v):
+        n = abs(Fraction(v).numerator)
+        while n and n % 2 == 0:
+            n //= 2
+        return n.bit_length()
+    return any(sig(v) > 26 for v in values.values())
+
+
 def part_samples(ctx):
     rng = ctx.rng
     asks, meta = [], []
@@ -265,6 +276,9 @@ def part_samples(ctx):
                             ctx.violation('sample keys %r differ from declared symbols + unshadowed constants %r' % (sorted(ks), sorted(w)), case, impl=sorted(ks))
                             break
                         bad = [n for n in w if Fraction(sd[n]) != w[n]]
+                        if bad and inexact(w):
+                            ctx.count('samples:values beyond exact float arithmetic (guard)'); case['inexact'] = True
+                            break
                         if bad:
                             ctx.violation('value of %s is not its formula evaluated on the same sample' % bad, case,
                                           impl={n: frac_to_str(Fraction(sd[n])) for n in bad}, expected={n: frac_to_str(w[n]) for n in bad})
@@ -304,6 +318,9 @@ def part_samples(ctx):
                 continue
             for sd, o in zip(got[1], mo):
                 impl_items = [[n, frac_to_str(Fraction(x))] for n, x in sd.items()]
+                if impl_items != o['out'] and [a for a, _ in impl_items] == [a for a, _ in o['out']] and inexact({a: Fraction(b) for a, b in o['out']}):
+                    ctx.count('samples:values beyond exact float arithmetic (guard, model)')      # same names, same order; the exact values need > 53 bits
+                    break
                 if impl_items != o['out']:
                     ctx.disagree('sample dictionary (contents or insertion order) differs from the model', case, impl_items, o['out'])
                     break
